@@ -42,3 +42,7 @@ def build(pc, E, canary=None):
 
 def concretise(pc, it):
     return {'script': 'meta_case.py', 'case': {}}
+
+
+def fallback(pc):
+    return [{'script': 'meta_case.py', 'case': {}}]
